@@ -109,6 +109,10 @@ MUTATIONS = [
  ('m84', 'C15', 'src/storage/zarr/async_impl.rs', r's/            data\.chunk_idx as u64 \* data\.full_at as u64,\n        \];\n        let shape = vec!\[1u64, data\.len as u64\];\n        let subset = ArraySubset::new_with_start_shape\(start, shape\)\n            \.context\("Failed to build string chunk subset"\)\?;\n        return array\n            \.async_store/            data.chunk_idx as u64 * data.len as u64,\n        ];\n        let shape = vec![1u64, data.len as u64];\n        let subset = ArraySubset::new_with_start_shape(start, shape)\n            .context("Failed to build string chunk subset")?;\n        return array\n            .async_store/', 'async writer: string chunks start at chunk_idx * len instead of chunk_idx * chunk size'),
  ('m85', 'C15', 'src/storage/zarr/async_impl.rs', r's/(async fn store_zarr_chunk_async.*?)shape\[1\] = data\.len as u64;/$1shape[1] = data.full_at as u64;/s', 'async writer: partial chunk subset has the full chunk length'),
  ('m86', 'C15', 'src/storage/zarr/async_impl.rs', r's/(async fn store_zarr_chunk_async.*?)let chunk_vec: Vec<_> = once\(chain_chunk_index as u64\)\n        \.chain\(once\(data\.chunk_idx as u64\)\)/$1let chunk_vec: Vec<_> = once(data.chunk_idx as u64)\n        .chain(once(chain_chunk_index as u64))/s', 'async writer: chain row and chunk index swapped'),
+ ('m87', 'C14', 'src/storage/csv.rs', r's/                \} else \{\n                    vec\[0\]\.to_string\(\)\n                \}\n            \}\n            Value::I64/                } else {\n                    vec[1].to_string()\n                }\n            }\n            Value::I64/', 'CSV: an unsigned vector cell prints its second element'),
+ ('m88', 'C14', 'src/storage/csv.rs', r's/if vec\[0\] \{ "1" \} else \{ "0" \}\.to_string\(\)/if vec[0] { "0" } else { "1" }.to_string()/', 'CSV: boolean vector cells print inverted'),
+ ('m89', 'C07', 'src/stepsize/adapt.rs', r's/hamiltonian\.initialize_trajectory\(math, &mut state, true, rng\)\?;\n\n        let mut collector = AcceptanceRateCollector::new\(\);\n\n        collector\.register_init\(math, &state, options\);\n\n        \*hamiltonian\.step_size_mut\(\) = self\.options\.initial_step;\n\n        let state_next/hamiltonian.initialize_trajectory(math, \&mut state, false, rng)?;\n\n        let mut collector = AcceptanceRateCollector::new();\n\n        collector.register_init(math, \&state, options);\n\n        *hamiltonian.step_size_mut() = self.options.initial_step;\n\n        let state_next/', 'step-size search starts without resampling the momentum (mutation campaign 5)'),
+ ('m90', 'C14', 'src/storage/csv.rs', r's/dim_idx \+ 1,/dim_idx + 0,/', 'CSV: the column enumeration recurses without advancing the dimension (mutation campaign 5: the check stopped with exit 2)'),
  ('e19', 'C07', 'src/stepsize/adapt.rs', r's/let dir = if accept_stat > self\.options\.target_accept \{/let dir = if accept_stat >= self.options.target_accept {/', 'NOT A VIOLATION: a tie between the first trial and the target is resolved the other way'),
  ('e20', 'C05', 'src/external_adapt_strategy.rs', r's/            if energy_error > self\.max_energy_error \{\n                return;\n            \}\n\n            if !math\.array_all_finite\(point\.position\(\)\) \{\n                return;\n            \}\n            if !math\.array_all_finite\(point\.gradient\(\)\) \{\n                return;\n            \}\n\n            self\.draws\.push\(math\.copy_array\(point\.position\(\)\)\);\n            self\.grads\.push\(math\.copy_array\(point\.gradient\(\)\)\);\n            self\.logps\.push\(point\.logp\(\)\);\n        \}\n    \}\n\n    fn register_draw/            if energy_error >= self.max_energy_error {\n                return;\n            }\n\n            if !math.array_all_finite(point.position()) {\n                return;\n            }\n            if !math.array_all_finite(point.gradient()) {\n                return;\n            }\n\n            self.draws.push(math.copy_array(point.position()));\n            self.grads.push(math.copy_array(point.gradient()));\n            self.logps.push(point.logp());\n        }\n    }\n\n    fn register_draw/', 'NOT A VIOLATION: an energy error exactly at the limit is dropped by the flow collector'),
  ('e21', 'C05', 'src/transform/adapt/diagonal.rs', r's/self\.is_good = idx\.abs\(\) > 4;/self.is_good = idx.abs() > 6;/', 'NOT A VIOLATION: divergent draws are rejected a little further from the start'),
